@@ -3,6 +3,7 @@
 package websocket
 
 import (
+	"github.com/aukilabs/hagall-common/messages/dagazpb"
 	"github.com/aukilabs/hagall/internal/verifnd"
 )
 
@@ -35,4 +36,46 @@ func VerifC08Dagaz() {
 	c.do(r.msg)
 	verifnd.Reach("C08.dagaz.done")
 	verifnd.Reach("C08.kind." + kindName(kind))
+}
+
+// VerifC08DagazAbsent: the ground-plane messages with every pattern of absent points (present points have
+// concrete coordinates, so no float reasoning is involved): no panic.
+func VerifC08DagazAbsent() {
+	w := newVWorld(vModDagaz)
+	c := w.newConn()
+	c.mustJoin("")
+	c.drain()
+	pt := func() *dagazpb.Point {
+		if verifnd.Bool() {
+			return &dagazpb.Point{X: 0.5, Y: 0, Z: 0.5}
+		}
+		return nil
+	}
+	ext := func() *dagazpb.Point {
+		if verifnd.Bool() {
+			return &dagazpb.Point{X: 0.25, Y: 0, Z: 0.25}
+		}
+		return nil
+	}
+	kind := verifnd.Choice(4)
+	switch kind {
+	case 0:
+		n := 1 + verifnd.Choice(2)
+		var qs []*dagazpb.Quad
+		for i := 0; i < n; i++ {
+			qs = append(qs, &dagazpb.Quad{Center: pt(), Extents: ext()})
+		}
+		c.do(&dagazpb.DagazQuadSample{Type: dagazpb.MsgType_MSG_TYPE_DAGAZ_QUAD_SAMPLE, Timestamp: vts(), Samples: qs})
+	case 1:
+		var ray *dagazpb.Ray
+		if verifnd.Bool() {
+			ray = &dagazpb.Ray{From: pt(), To: pt()}
+		}
+		c.do(&dagazpb.DagazGetGroundPlaneRequest{Type: dagazpb.MsgType_MSG_TYPE_DAGAZ_GET_GROUND_PLANE_REQUEST, Timestamp: vts(), RequestId: 1, Ray: ray})
+	case 2:
+		c.do(&dagazpb.DagazGetRegionRequest{Type: dagazpb.MsgType_MSG_TYPE_DAGAZ_GET_REGION_REQUEST, Timestamp: vts(), RequestId: 1, Min: pt(), Max: pt()})
+	case 3:
+		c.do(&dagazpb.DagazGetDebugInfoRequest{Type: dagazpb.MsgType_MSG_TYPE_DAGAZ_GET_DEBUG_INFO_REQUEST, RequestId: 1})
+	}
+	verifnd.Reach("C08.dagaz_absent.done")
 }
